@@ -293,6 +293,14 @@ pub fn run(ctx: &mut Ctx) -> Report {
 		scan(&mut s, &sec, "public-key-raw", key.public_key_raw());
 		scan(&mut s, &sec, "keypair-debug", format!("{:?}", key).as_bytes());
 		scan(&mut s, &sec, "keypair-debug-alt", format!("{:#?}", key).as_bytes());
+		// (every flag a Debug format takes: sign, alternate, hexadecimal, width, precision)
+		for (spec, text) in [
+			("{:+?}", format!("{:+?}", key)), ("{:-?}", format!("{:-?}", key)), ("{:x?}", format!("{:x?}", key)), ("{:X?}", format!("{:X?}", key)), ("{:#x?}", format!("{:#x?}", key)),
+			("{:+#?}", format!("{:+#?}", key)), ("{:08?}", format!("{:08?}", key)), ("{:100?}", format!("{:100?}", key)), ("{:.3?}", format!("{:.3?}", key)), ("{:+#X?}", format!("{:+#X?}", key)),
+			("Some {:+?}", format!("{:+?}", Some(&key))), ("vec {:+x?}", format!("{:+x?}", vec![&key])),
+		] {
+			scan(&mut s, &sec, &format!("keypair-debug {}", spec), text.as_bytes());
+		}
 		scan(&mut s, &sec, "algorithm-debug", format!("{:?}", key.algorithm()).as_bytes());
 		// error paths reachable with the key
 		let key_pem = key.serialize_pem();
@@ -647,10 +655,13 @@ pub fn run(ctx: &mut Ctx) -> Report {
 			// the tool's explicit private-key outputs are the two files <name>.key.pem of the names it
 			// is given: after a successful run no other file in the directory holds a private key,
 			// whatever the names look like (dots, names ending like the tool's own suffixes)
-			for (cert_name, ca_name) in [("cert", "root-ca"), ("root-ca.key.pem", "root-ca"), ("leaf.pem", "ca.pem"), ("x.key", "y"), ("a.key.pem", "a.key"), ("www.example.org", "ca.example.org")] {
+			let algs: Vec<&str> = if aws { vec!["--ecdsa-p256", "--rsa", "--ecdsa-p521", "--ed25519"] } else { vec!["--ecdsa-p256", "--ed25519", "--ecdsa-p384"] };
+			for (ni, (cert_name, ca_name)) in [("cert", "root-ca"), ("root-ca.key.pem", "root-ca"), ("leaf.pem", "ca.pem"), ("x.key", "y"), ("a.key.pem", "a.key"), ("www.example.org", "ca.example.org"), ("cert", "root-ca"), ("cert", "root-ca")].into_iter().enumerate() {
+				// (every key algorithm of the build in turn: key and certificate texts of every length relation)
+				let alg = algs[ni % algs.len()];
 				let dir = format!("/verif/.cache/c19_cli_names_{}", std::process::id());
 				let _ = std::fs::remove_dir_all(&dir);
-				let out = std::process::Command::new(&cli).args(["-o", &dir, "--san", "x.example", &format!("--cert-file-name={}", cert_name), &format!("--ca-file-name={}", ca_name)]).env("RUST_BACKTRACE", "0").output();
+				let out = std::process::Command::new(&cli).args(["-o", &dir, alg, "--san", "x.example", &format!("--cert-file-name={}", cert_name), &format!("--ca-file-name={}", ca_name)]).env("RUST_BACKTRACE", "0").output();
 				let Ok(out) = out else { continue };
 				s.rep.case(&format!("cli key files for names {} / {}", cert_name, ca_name), true);
 				if out.status.success() {
